@@ -436,8 +436,10 @@ class DeepWorld:
             setattr(mod, attr, val)
         self._trace = (sys.gettrace(), threading.gettrace())
         self.custom.setdefault('APP_ROOT', '/nonexistent-app-root')
-        self.custom.setdefault('POLL_TIMER', 3600)
-        self.custom.setdefault('SERVICE_URL', 'fake:1')
+        if 'DEEP_POLL_TIMER' not in os.environ:
+            self.custom.setdefault('POLL_TIMER', 3600)
+        if 'DEEP_SERVICE_URL' not in os.environ:
+            self.custom.setdefault('SERVICE_URL', 'fake:1')
         cfg = ConfigService(self.custom, tracepoints=TracepointConfigService())
         self.config = cfg
         self.deep = D.Deep(cfg)
